@@ -10,6 +10,8 @@ anything else is a VIOLATION.
 governance transactions (node_manager / side_chain_manager / relayer_manager methods that range over Go maps) — is
 executed k times on two ledgers with the same history (fresh stores), and ExecuteResult (write set, digest, cross
 hashes, cross root, events, state root) must be identical; the scripted part is also compared with the Lean model.
+Stream `clock`: the same ETH SyncBlockHeader transaction on the same state, 3 s apart, rejected then accepted (concrete
+input for the known finding of that site).
 """
 import json
 import os
@@ -65,15 +67,20 @@ def run(ctx):
                                 "harness hnative (determ stream) + drv_native"]
     facts = generate(ctx)
     ctx.lean_props()
+    hbin = ctx.build_harness("hnative")
+    # dynamic demonstration of one reachable wall-clock read (concrete input for that site); before the static
+    # report so that the site's replay file carries the transaction
+    if hbin:
+        res = ctx.correspondence("clock", hbin, ["clock"], None)
+        ctx.judge(res)
     reach = static_part(ctx, facts) if facts else []
-    dynamic_part(ctx, reach)
+    dynamic_part(ctx, hbin)
     # the Lean obligations fail exactly when the reachable sites differ from knownSites; the concrete sites are
     # reported above, so the theorem failure itself is only reported when nothing concrete explains it
     ctx.judge_lean()
 
 
-def dynamic_part(ctx, reach):
-    hbin = ctx.build_harness("hnative")
+def dynamic_part(ctx, hbin):
     drv = ctx.build_driver("drv_native")
     if not hbin:
         return
